@@ -23,6 +23,7 @@ def check(chk, thorough=False):
     chk.run('C07.g', 'R-PAIR', 'trailing octets are not counted into a probed message: every probe class strips the padding layer before the message is measured', lambda ob: c07g(tree, ob), floor=3)
     chk.run('C07.h', 'R-GUARD', 'only a known message type can be called partial: an unassigned type is passed on (to be rejected) however many octets follow it (= C17.f)', lambda ob: __import__('sa.props.c17', fromlist=['c17f']).c17f(tree, ob), floor=2)
     chk.run('C07.f', 'R-FLOW', 'what is written to the socket is exactly the encoded messages: byte buffers only appended and prefix-dropped by what was accepted (= C01.b)', lambda ob: _c01b(tree, ob), floor=7)
+    chk.run('C07.i', 'R-PAIR', 'what follows the contact header in the same read is decoded as messages: the decoder class is chosen per message, and every handler that drains runs the close check (= C09.a)', lambda ob: __import__('sa.props.c09', fromlist=['c09a']).c09a(tree, ob), floor=5)
     chk.run('C07.e', 'R-SCHEMA', 'message layouts equal RFC 9174 (= C04.h)', lambda ob: c04h(tree, ob), floor=7)
 
 
@@ -359,6 +360,13 @@ def c07c(tree, ob):
             if truthy:
                 ob.violate(rel, cnode.name + '.post_dissection', 'if {}: verify_sized_item(self.{}, ...)'.format(truthy[0][0], fld.name),
                            'the length check of {} is skipped when the decoded value is empty, so a message cut right after the length field is taken as complete'.format(target), call)
+                continue
+            # ... and the check is made for every message of the class: it is reached whatever the flags / other fields say
+            other = [f for f in facts if not (f[0].endswith(' is None') or f[0].endswith(' is not None')) and not f[0].startswith('isinstance(') and f not in truthy]
+            if other:
+                ob.violate(rel, cnode.name + '.post_dissection', 'verify_sized_item(self.{}, ...) only when {}{}'.format(fld.name, '' if other[0][1] else 'not ', other[0][0])[:110],
+                           'the length check of {} is made for some messages of this type only (a return or a branch on another field comes first): the others are taken as complete when cut inside '
+                           'the item, and the octets that follow are decoded as messages'.format(target), call, sure=True)
             else:
                 ob.site(rel, call, '{}.{} verified against {}'.format(cnode.name, fld.name, target))
     # verify_sized_item itself compares lengths and raises VerifyError
